@@ -14,7 +14,8 @@ PROP = dict(
                 "IssueToken/Mint/Burn received by the token contract; a failed call returns exactly the amount and token it carried and leaves all balances and the token table unchanged; a refused block changes nothing; "
                 "a genesis configuration passing CheckTokenTotalSupply (with supply<=max, balances>=0) satisfies the invariant; below the enforcement height the invariant is refuted (documented protocol history). "
                 "Modelled concretely: vm.enoughFunds/applySend/applyReceive/generateEmbeddedReceive/rollbackEmbedded (Save/Reset/Done), AddBalance/SubBalance incl. the panic, per-account received markers, the contract sequencer "
-                "(push on confirmation, front/pop), verifier amounts()/fromHash()/sequencer(), Issue/Mint/Burn/UpdateToken with the MaxSupply rules. Parametric: every other embedded method = arbitrary (success + descendant sends | failure); "
+                "(push on confirmation, front/pop), verifier amounts()/fromHash()/sequencer(), Issue/Mint/Burn/UpdateToken with the MaxSupply rules. Concrete bodies imported from the C09/C10 models (theories/Emb.v through the adapter theories/LedgerEmb.v): Donate, DepositQsr, WithdrawQsr, CollectReward, Fuse, CancelFuse, Stake, Cancel - their receives are replayed from (send data, one storage entry, frontier momentum) and the descendants are COMPUTED by the body (input_distribution: c01:method:concrete(...) vs c01:method:parametric:...). "
+                "Parametric: every other embedded method (Update of the reward contracts, pillar Register/Delegate/Revoke, sentinel Register/Revoke, accelerator projects, htlc, bridge, liquidity staking, spork, swap) = arbitrary (success + descendant sends | failure); "
                 "the text/ABI checks of the token methods and the embedded lookup of descendant/refund sends are boolean inputs.",
     assumptions=["every embedded method other than the token methods changes balances only through the descendant sends it returns (VM discipline; true by inspection: only token.go calls AddBalance/SubBalance; checked on every observed contract receive by the projection equality)",
                  "block hashes are unique ids (collision freedom of the hash): the model refuses a send whose id is already present",
@@ -28,6 +29,6 @@ META = dict(
          "(sum of balances + in-flight = TotalSupply <= MaxSupply, balances >= 0) is evaluated on a full ledger scan after every momentum and pool state.",
     design_ref="DESIGN.md section 5, C01",
     note="Trusted: Coq kernel; harness (ledger scan, id numbering, ABI decoding of token calls); embedded methods other than token.go are a parameter of the model (discipline validated on observed traces). "
-         "Reward minting by multi-epoch Update calls is covered by the theorem (Mint from an embedded address) but not yet generated by the harness. All theorems closed under the global context.",
+         "All theorems closed under the global context. coq/theories/LedgerEmb.v imports Emb.v / VmReceive.v / Abi.v of the contracts engineer (C09/C10): a break there breaks the C01 tie.",
     technique="Coq proof (invariant + induction over op lists, association-list ledger) + trace-inclusion correspondence check + direct property oracle on ledger scans",
 )
